@@ -2,7 +2,8 @@
 use crate::engine::*;
 use crate::gen;
 use crate::refmodel::*;
-use engeom::{Curve2, Curve3, Mesh, Point2, Point3, UnitVec3};
+use engeom::metrology::Measurement;
+use engeom::{Curve2, Curve3, Mesh, Point2, Point3, UnitVec3, Vector3};
 use serde::{Deserialize, Serialize};
 use serde_json::json;
 use std::f64::consts::PI;
@@ -185,7 +186,23 @@ fn judge_mesh(v: &[Point3], f: &[[u32; 3]], is_solid: bool, queries: &[Point3], 
     let normals: Vec<Option<UnitVec3>> = m.tri_mesh().triangles().map(|t| t.normal()).collect();
     // for meshes flagged solid only outside queries are in the quantifier
     let centre = v.iter().fold(Point3::origin(), |a, p| a + p.coords / v.len() as f64);
-    for q in queries {
+    // the grid is extended by queries very close to the surface: off every vertex and edge mid-point
+    // along a few directions at offsets spanning the code's own thresholds (1e-7 .. 1e-2)
+    let mut queries: Vec<Point3> = queries.to_vec();
+    let dirs = [Vector3::new(1.0, 0.0, 0.0), Vector3::new(0.0, -1.0, 0.0), Vector3::new(0.0, 0.0, 1.0), Vector3::new(1.0, 1.0, 1.0).normalize(), Vector3::new(-1.0, 0.5, -0.25).normalize()];
+    let mut anchors: Vec<Point3> = v.to_vec();
+    for t in f.iter().take(6) {
+        anchors.push(Point3::from((v[t[0] as usize].coords + v[t[1] as usize].coords) * 0.5));
+        anchors.push(Point3::from((v[t[0] as usize].coords + v[t[1] as usize].coords + v[t[2] as usize].coords) / 3.0));
+    }
+    for a in anchors.iter() {
+        for d in dirs.iter() {
+            for eps in [1e-7, 1e-4, 5e-4, 1e-2] {
+                queries.push(a + d * eps);
+            }
+        }
+    }
+    for q in queries.iter() {
         if is_solid {
             // outside test by brute force: the closest face's normal points towards q
             let (mut best, mut sign) = (f64::MAX, 1.0);
@@ -234,6 +251,15 @@ fn judge_mesh(v: &[Point3], f: &[[u32; 3]], is_solid: bool, queries: &[Point3], 
             (d - best).abs() < 1e-9 && d3(cp, &sp.point) < 1e-9 && normals[*fi].map(|nn| (nn.into_inner() - sp.normal.into_inner()).norm() < 1e-9).unwrap_or(false)
         });
         l.check("mesh: normal is that of a face attaining the minimum at the point", "", ok_n, mk, || format!("q {:?}: normal {:?}", q, sp.normal));
+        if best > 1e-9 {
+            let dev = m.measure_point_deviation(q, engeom::common::DistMode::ToPoint);
+            // below the routine's own coincidence threshold (1e-6) the direction falls back to the face normal
+            let ok = if best < 2e-6 { dev.value().abs() <= best + 1e-9 } else { (dev.value().abs() - best).abs() <= 1e-9 * (1.0 + best) };
+            l.check("mesh: point-mode deviation magnitude equals the distance", "", ok, mk, || format!("q {:?}: deviation {:e} distance {:e}", q, dev.value(), best));
+            if best < 1e-3 {
+                l.bucket("query within 1e-3 of the surface");
+            }
+        }
         for cap in [0.25, 1.0, 2.0f64.sqrt(), 10.0] {
             l.eval();
             let r = m.project_with_max_dist(q, cap);
@@ -420,7 +446,7 @@ pub fn run(tier: Tier) -> i32 {
     let mut cx = Ctx::new("C02", tier, "exploration");
     cx.rule = "every 2D lattice curve with <= 4 vertices (open/force-closed) x the half-integer query grid; 3D lattice curves x a 7^3 grid; 7 structured large polyline families x 15 sizes (5..5000 edges: every QBVH occupancy and depth) x grid + on-entity queries; all 512 height fields over a 3x3 grid x 2 diagonal patterns and 4 solids (non-solid with inside queries, flagged solid with outside queries) x query grid x 4 caps x 3 angle limits; reference model: brute force over every edge / face. distinct = distinct entities".into();
     cx.bounds = json!({"curve2_seq_len": tier.pick(4, 5), "curve3_seq_len": 3, "query_grid_step": tier.pick(0.5, 0.25), "large_sizes": gen::LARGE_SIZES, "caps": [0.25, 1.0, 1.4142135623730951, 10.0], "angles": [0.2, 0.7853981633974483, 1.5]});
-    cx.require(&["query on the entity", "query equidistant from several elements", "query with a unique nearest element", "structured large polyline", "non-solid mesh with inside queries", "mesh flagged solid, outside queries"]);
+    cx.require(&["query within 1e-3 of the surface", "query on the entity", "query equidistant from several elements", "query with a unique nearest element", "structured large polyline", "non-solid mesh with inside queries", "mesh flagged solid, outside queries"]);
     cx.assume("ties: any minimiser accepted; gray: distance within 1e-9 of the cap, zero offset (angle undefined), angle within 1e-9 of the acceptance boundary");
     cx.assume("inside queries are made on non-solid meshes only, as the quantifier says (is_solid has no effect on Mesh::new meshes)");
     let cs = cases(tier);
